@@ -223,7 +223,8 @@ func c14Compile(dir string) (cc *c14Compiled, err error) {
 
 // generated programs stay far below this many VM instructions per call; after a few runaway calls (a
 // miscompiled loop) the limit drops so that a broken compiler does not stall the check
-var c14StepLimit int64 = 400_000
+var c14StepLimit int64 = 3_000_000
+var c14MaxSteps int64
 var c14Runaway int
 
 // instructions executed by the last c14RunVM (the harness is single-threaded on the VM side)
@@ -257,12 +258,15 @@ func c14RunVM(cc *c14Compiled, off int, args []c14Val) (stack []stackitem.Item, 
 	}
 	err := v.Run()
 	c14LastSteps = steps
+	if steps > c14MaxSteps && err == nil {
+		c14MaxSteps = steps
+	}
 	if err != nil {
 		msg := err.Error()
 		if steps > limit {
 			msg = "STEP LIMIT: " + msg
-			if c14Runaway++; c14Runaway == 8 {
-				c14StepLimit = 20_000
+			if c14Runaway++; c14Runaway == 4 {
+				c14StepLimit = 100_000
 			}
 		}
 		return nil, msg
